@@ -477,7 +477,7 @@ def run(ctx):
               "calibrate_threshold} x malformations: outcome must be ValueError, well-formed must return. equivalence lane: "
               "fit on list/int64/int32/Fortran/strided copies and, for non-negative values, uint8/int8/uint16/int16/uint64 copies of "
               "integer-valued float64 data, formed or as indicators of a preprocessor holding the float64/int64/uint8/int16 copy." % ("complete enumeration" if thorough else "random 2500-case sample of the full grammar"))
-  ctx.trusted = ["Coq 8.16.1 kernel + vm_compute", "hand-written model Model/Validate.v tied to the code by the enumeration",
+  ctx.trusted = ["text pins tools/translate_pins.py (check_input family)", "Coq 8.16.1 kernel + vm_compute", "hand-written model Model/Validate.v tied to the code by the enumeration",
                  "oracle model of scikit-learn check_array/check_X_y (sk_bad, y_bad), validated on the same grammar",
                  "translator tools/translate_query.py for the per-method validation table"]
   ok = ctx.build_property(gen_needed=['Src_query'])
